@@ -26,6 +26,10 @@ CLAIMS = {
    text="property-based testing against an independent reference parser: random operator tables and expression trees in three parenthesisations (the minimal one derived with the reference parser), and token-level mutations of valid programs where the reference decides accept/reject and the expected tree; sampled, not complete",
    note="trusts the reference parser in harness/pratt (written from the grammar stated in the property) and the lexical joiner",
    tech="property-based testing with a reference parser (precedence climbing) as oracle, mutation of token lists"),
+ "C15": dict(level="exploration",
+   text="metamorphic property-based testing: generated separators (white space, both comment kinds, tight or spaced) between the tokens of valid programs must leave the AST unchanged and report the lines the layout engine predicts; literal round trips for random unicode strings and quoted identifiers; alias vs ASCII spelling; omitted vs explicit multiplication in comfort mode; sampled, not complete",
+   note="trusts the layout engine's line model (a line break is LF) and the lexical predicate deciding where no separator is needed",
+   tech="metamorphic property-based testing (layout variants vs canonical layout), literal round-trip"),
  "C01": dict(level="exploration",
    text="differential property-based testing: programs from a typed grammar generator are evaluated by the implementation (optimizer on and off) and by an independent reference interpreter and compared deeply; shrunk counterexamples become replay files; sampled, not complete",
    note="trusts the reference interpreter and eager reference library in harness/ref (written from documentation, property text and repository tests) and the harness renderer; unspecified edges are skipped, not asserted",
